@@ -1145,13 +1145,15 @@ fn parse_circuit_inputs<'a>(
             require(inputs.insert(idx, ty).is_none())
                 .ok_or(SpecializationError::UnsupportedGenericArg)?;
         } else {
-            // generic_id must be a gate. This was validated in `validate_output_tuple`.
-            stack.extend(
-                long_id
-                    .generic_args
-                    .iter()
-                    .map(|generic_arg| extract_matches!(generic_arg, GenericArg::Type).clone()),
-            );
+            // generic_id should be a gate, whose generic arguments are all types. The topmost
+            // types were validated in `validate_output_tuple`, but a nested type of an untrusted
+            // program may be anything.
+            for generic_arg in &long_id.generic_args {
+                let GenericArg::Type(ty) = generic_arg else {
+                    return Err(SpecializationError::UnsupportedGenericArg);
+                };
+                stack.push(ty.clone());
+            }
         }
     }
 
